@@ -201,7 +201,9 @@ def check_reuse(c):
         if entry[0] == "update":
             # streaming use of the same object between two one-shot calls (whole blocks without padding, or a
             # padded final piece); its result is not judged here, the next one-shot digest is
-            attempt(h.update, entry[1], padding=entry[2])
+            if (entry[1][:1] or b"\0")[0] % 2 == 0:
+                attempt(h.initstate)          # a stream opened properly (after a finished digest update() alone is refused) ...
+            attempt(h.update, entry[1], padding=entry[2])     # ... and, without padding, never finished
             continue
         M, L = entry
         if L is not None and L > 8 * len(M):
